@@ -470,12 +470,16 @@ Dev_TupleAddDropsLeft(lo, ro, val, inf) ==
     /\ AllMembers(SeqToSet(ro.items), inf.args[1])
     /\ ~AllMembers(SeqToSet(lo.items), inf.args[1])
 
-\* ---- (b) a loop body is analysed twice, not to a fixpoint ------------------------------------------------------
-\* The first pass sees the values that enter the loop, the second pass the values one iteration produced.  A value
-\* whose data flow crossed the back edge of a loop twice or more (it was produced in iteration i from a value produced
-\* in iteration i-1 ... and is read in iteration >= i+1; e.g. the third x of `while t: x = [x]`) was seen by neither pass.
-\* carry(r) = number of back edges crossed by the flow that produced the current value of r, Delta = one more if the
-\* value was stored in an earlier iteration of a loop that is still running.
+\* ---- (b) a loop body is not analysed to a fixpoint -------------------------------------------------------------
+\* The collecting phase visits a loop body twice, the checking phase once, and every definition node keeps ONE value
+\* (that of its latest visit), so the state at the head of the body is  <entry state> | <latest value of the body's
+\* definition nodes>.  In a loop that is always entered the second collecting visit starts from the first visit's END
+\* state alone: for `for e in (1, 'a'): x = tolist(x)` the checking phase types x at the head of the body as
+\* x0 | list[list[x0]] and the second iteration's value [x0] is in neither member.  What the mechanism gets wrong are
+\* values that were carried over a back edge of the loop: carry(r) = number of back edges crossed by the data flow that
+\* produced the current value of r (copied by assignments: max over the variables read, see MiniPyTrace!AfterStore),
+\* Delta = one more if the value was stored in an earlier iteration of a loop that is still running.  A value that was
+\* never carried (read in the iteration that produced it, or produced before the loop) is not excused.
 Delta(st, r) == IF \E L \in LoopIds : st.stamp[r][L] >= 1 /\ st.it[L] > st.stamp[r][L] THEN 1 ELSE 0
 Carry(st, r) == st.cc[r] + Delta(st, r)
 Dev_LoopCarried(st, reads) == \E r \in reads : Carry(st, r) >= 1
